@@ -316,7 +316,9 @@ where
             return Err(VerifierError::RemainderCommitmentMismatch);
         }
 
-        if remainder_poly.len() > max_degree_plus_1 {
+        // the prover sends a power-of-two number of remainder coefficients; when the degree bound
+        // allows fewer, the coefficients above the bound must be zero
+        if remainder_poly.iter().skip(max_degree_plus_1).any(|&c| c != E::ZERO) {
             return Err(VerifierError::RemainderDegreeMismatch(max_degree_plus_1 - 1));
         }
         let offset: E::BaseField = self.options().domain_offset();
